@@ -26,7 +26,7 @@ var h16Classes = []struct {
 // H16a: classes, named combinations, constructor defaults, retry budget.
 func H16a() {
 	// the built-ins must be what they are whatever recipes ran before in the process
-	if e := vChoice("earlier-recipe", 9); e > 0 {
+	if e := vChoice("earlier-recipe", 13); e > 0 {
 		vSummary(true)
 		r := []CharRecipe{
 			{Length: 3, Allow: Digits, AllowChars: "abcdef"},
@@ -37,6 +37,12 @@ func H16a() {
 			{Length: 3, Allow: Letters, Exclude: Digits, ExcludeChars: "Q"},
 			{Length: 3, Allow: Lowers, RequireSets: []string{"aeiou"}},
 			{Length: 3, Allow: Digits, RequireSets: []string{"13579"}},
+			// class flags only, in combinations that a packed, folded or summed
+			// key over (Allow, Require, Exclude) confuses with the defaults
+			{Length: 3, Allow: All, Require: Uppers},
+			{Length: 3, Allow: All | Ambiguous},
+			{Length: 3, Allow: All, Require: Ambiguous},
+			{Length: 3, Allow: Ambiguous, Exclude: All},
 		}[e-1]
 		// (the earlier call runs with a small retry budget; the default is
 		// put back before it is checked below)
@@ -86,7 +92,7 @@ var h16Presets = []struct {
 // of its draws - the documented characters, one-to-one, with the matching entropy.
 func H16p() {
 	np := len(h16Presets)
-	first := vChoice("earlier-preset", np+2) // np: none, np+1: a single-class recipe with extra characters
+	first := vChoice("earlier-preset", np+3) // np: none, np+1: a single-class recipe with extra characters, np+2: flag-only recipes
 	second := vChoice("preset", np)
 	vSummary(true)
 	if first < np {
@@ -101,6 +107,22 @@ func H16p() {
 		MaxTrials, MaxFailRate = 2, 1.0
 		r3 := CharRecipe{Length: 3, Allow: Digits, RequireSets: []string{"13579"}}
 		r3.Generate()
+		MaxTrials, MaxFailRate = savedT, savedF
+	} else if first == np+2 {
+		// class-flag-only recipes whose (Allow, Require, Exclude) a packed,
+		// folded or summed key confuses with a preset's recipe
+		savedT, savedF := MaxTrials, MaxFailRate
+		MaxTrials, MaxFailRate = 2, 1.0
+		for _, r := range []CharRecipe{
+			{Length: 2, Allow: Digits, Require: Uppers},
+			{Length: 2, Allow: Digits | Ambiguous},
+			{Length: 2, Allow: Digits, Require: Symbols},
+			{Length: 2, Allow: Symbols, Require: Digits},
+			{Length: 1, Allow: Digits | Symbols, Exclude: Ambiguous},
+		} {
+			r.Generate()
+			r.Alphabet()
+		}
 		MaxTrials, MaxFailRate = savedT, savedF
 	}
 	p := h16Presets[second]
